@@ -12,10 +12,11 @@ import CbiVerif.Props.C03Strcat
 
 Model `M` = `CbiVerif.MX.cbiExpand` (the step machine the driver executes), spec `S` = `CbiVerif.Spec.Prosser.prosser`.
 
-* `Full` — the full-strength statement (kept visible; it is still **false** for the code: `full_fails`, by the remaining
-  finding D10; `D10_witness`, `D12_witness_small` pin the findings that are still open, each is replayed on the real code by the
+* `Full` — the full-strength statement (kept visible; it is still **false** for the code: `full_fails` in `Props/C03Stringify.lean`, by the remaining
+  finding D42; `D42_witness` (same file), `D12_witness_small` pin the findings that are still open, each is replayed on the real code by the
   harness);
-* repaired findings, now positive statements: `D9_fixed`, `D9_chain_fixed`, `D11_fixed` (+ `D11_regression`: what the machine
+* repaired findings, now positive statements: `D9_fixed`, `D9_chain_fixed`, `D10_fixed` (`#`: white space, character constants,
+  escapes; details in `Props/C03Stringify.lean`), `D11_fixed` (+ `D11_regression`: what the machine
   did before the repair), `D35_fixed`, `D36_fixed`, `D37_fixed`, `D44_fixed`, `literals_not_substituted`, `D40_fixed`, `D41_fixed`, `argument_tokens_not_substituted`;
 * `object_like_partial` (model = recursive reference `E` started with nothing disabled), `object_like_conforms_partial` (model =
   `Spec.Prosser` itself on object-like tables without `##`/`defined`; macros named `None` included), `terminates_objlike_partial`,
@@ -279,8 +280,9 @@ theorem D9_chain_fixed : expandText [] ["CAT3(a,b,c) q a##b##c"] "CAT3(,,z) CAT3
     specText ["CAT3(a,b,c) q a##b##c"] "CAT3(,,z) CAT3(x,,z) CAT3(,,)" = some ["q", "z", "q", "xz", "q"] := by
   decide +kernel
 
-/-- D10 (open): `#` keeps a leading blank and drops the quotes of character constants -/
-theorem D10_witness : expandText [] ["STR(x) #x"] "STR( a ) STR('a')" = .ok ["\" a\"", "\"a\""] ∧
+/-- D10 (repaired): `#` deletes white space before the first and after the last token of the argument and keeps the quotes of
+    a character constant (C11 6.10.3.2p2); the general statements are in `Props/C03Stringify.lean` -/
+theorem D10_fixed : expandText [] ["STR(x) #x"] "STR( a ) STR('a')" = .ok ["\"a\"", "\"'a'\""] ∧
     specText ["STR(x) #x"] "STR( a ) STR('a')" = some ["\"a\"", "\"'a'\""] := by
   decide +kernel
 
@@ -346,9 +348,8 @@ theorem D41_fixed : expandText [] ["F(x,y) 1 ## y x"] "F(2, _ x)" = .ok ["1_", "
     specText ["F(x,y) 1 ## y x"] "F(2, _ x)" = some ["1_", "x", "2"] := by
   decide +kernel
 
-/-- D40 (repaired): an argument that is only the operand of `#` is not macro-expanded, so a call inside it is not evaluated
-    (the leading blank inside the string is the open finding D10) -/
-theorem D40_fixed : expandText [] ["S(x, y) #y", "T(a, b) a b"] "S(1, T(2))" = .ok ["\" T(2)\""] ∧
+/-- D40 (repaired): an argument that is only the operand of `#` is not macro-expanded, so a call inside it is not evaluated -/
+theorem D40_fixed : expandText [] ["S(x, y) #y", "T(a, b) a b"] "S(1, T(2))" = .ok ["\"T(2)\""] ∧
     specText ["S(x, y) #y", "T(a, b) a b"] "S(1, T(2))" = some ["\"T(2)\""] := by
   decide +kernel
 
@@ -362,19 +363,5 @@ theorem D12_witness_small :
         | .ok r => some (r.map spellTok) | _ => none)
      | .error _ => none) = some ["0"] ∧ specText ["A B", "B C", "C 7"] "A" = some ["7"] := by
   decide +kernel
-
-/-- the full statement does not hold for the code as it is (the remaining finding D10 is a counterexample) -/
-theorem full_fails : ¬ Full := by
-  intro h
-  have hs := D10_witness.2
-  have hm := D10_witness.1
-  unfold specText at hs
-  cases hp : CbiVerif.Spec.Prosser.prosser ["STR(x) #x"] "STR( a ) STR('a')" with
-  | error e => simp [hp] at hs
-  | ok out =>
-    simp only [hp, Option.some.injEq] at hs
-    have := h [] ["STR(x) #x"] "STR( a ) STR('a')" out (by simpa using hp)
-    rw [hm, hs] at this
-    exact absurd this (by decide)
 
 end CbiVerif.C03
